@@ -10,6 +10,19 @@ Theorem C17_index_bounded : forall tr pre pend c post, saccept s_init tr 0 = Non
   c < lpeak l_init (pre ++ [(ACreate pend, c)]) 0.
 Proof. exact accepted_index_bounded. Qed.
 
+(* The property's second form ("equivalently, a never-used index is taken only
+   when every lower index is occupied by an entity that is alive or awaiting
+   maintain"): at every creation of an accepted transcript, [s] being the
+   allocator's lifecycle state just before it, a never-used index is the next
+   one and everything below it is occupied; every other creation reuses an
+   index whose death has been merged (or that was killed at once). *)
+Theorem C17_fresh_only_when_full : forall tr pre pend c post, saccept s_init tr 0 = None ->
+  micro_run s_init tr = pre ++ (ACreate pend, c) :: post ->
+  let s := fst (lrun l_init pre) in
+  (cell s c = Never -> c = used s /\ forall j, j < c -> occupied (cell s j) = true) /\
+  (cell s c <> Never -> is_free (cell s c) = true).
+Proof. exact accepted_fresh_only_when_full. Qed.
+
 Theorem C17_faithful_refines_spec : forall os,
   saccept s_init (combine os (snd (wrun true w_init os))) 0 = None.
 Proof. intros os. exact (proj1 (wrun_accepted os w_init s_init 0%nat RW_init)). Qed.
@@ -34,5 +47,6 @@ Example C17_nonvacuous :
 Proof. vm_compute. split; reflexivity. Qed.
 
 Print Assumptions C17_index_bounded.
+Print Assumptions C17_fresh_only_when_full.
 Print Assumptions C17_faithful_refines_spec.
 Print Assumptions C17_refuted_unfixed.
